@@ -3,7 +3,8 @@
 From Coq Require Import NArith ZArith List.
 From RsM Require Import Model.Tlv Model.TlvSpec
   Proofs.TlvFacts Proofs.TlvTotal Proofs.TlvWriter Proofs.TlvRoundtrip
-  Proofs.TlvWithin Proofs.TlvScalar Proofs.TlvReencode Props.C16.
+  Proofs.TlvWithin Proofs.TlvScalar Proofs.TlvReencode Proofs.TlvIter Proofs.TlvDecodeInv
+  Proofs.TlvMonitor Props.C16.
 Open Scope N_scope.
 
 Check (C16_total : forall s : bytes, blen s < two63 -> Forall safe (probe_all s)).
@@ -25,3 +26,9 @@ Check (C16_len_within_input : forall (s : bytes) (c : control_t) (v : bytes),
 Check (C16_container_len_within_input : forall (s : bytes) (c : control_t) (v : bytes),
   blen s < two63 -> control s = ROk c -> el_raw_value s = ROk v ->
   container_len s = ROk (hdr_len c + blen v) /\ hdr_len c + blen v <= blen s).
+Check (C16_tlv_iter_roundtrip : forall (cs : list tree) (rest : bytes),
+  wf_list cs -> blen (encode_list cs ++ w_end ++ rest) < two63 ->
+  tlv_iter_all (encode_list cs ++ w_end ++ rest) = ROk (map inl (flat_map flatten cs))).
+Check (C16_decode_reencode : forall (s : bytes) (x : tree),
+  is_bytes s -> blen s < two63 -> decode s = ROk x ->
+  wf_root x /\ exists rest, s = encode x ++ rest).
